@@ -283,9 +283,18 @@ func ProxyURL(job string, hash uint64, scheme, host, path string, extra url.Valu
 }
 
 // Scrape performs one Prometheus-side scrape through the real proxy and returns status and body.
-func (s *Sidecar) Scrape(u string) (int, http.Header, []byte) {
+// An aborted response (http.ErrAbortHandler) is reported as status 0.
+func (s *Sidecar) Scrape(u string) (code int, hdr http.Header, body []byte) {
 	rec := httptest.NewRecorder()
 	req := httptest.NewRequest("GET", u, nil)
+	defer func() {
+		if r := recover(); r != nil {
+			if r != http.ErrAbortHandler {
+				panic(r)
+			}
+			code, hdr, body = 0, rec.Header(), rec.Body.Bytes()
+		}
+	}()
 	s.Px.ServeHTTP(rec, req)
 	return rec.Code, rec.Header(), rec.Body.Bytes()
 }
